@@ -324,7 +324,8 @@ pub fn can_join(prev: &Lexeme, next: &Lexeme) -> bool {
             // `$` followed by digits is a hardware qubit; followed by `_` the lexer's digit scanner
             // also takes the underscore: treated as fusing (conservative)
             '$' => !wordlike(next.first),
-            '@' => !wordlike(next.first),
+            // `@` starts an annotation only in front of an identifier start: a digit may follow
+            '@' => !wordlike(next.first) || matches!(next.first, Cls::Number | Cls::NumDot),
             _ => true,
         },
     }
